@@ -110,7 +110,7 @@ CLAIMS = {
          'a miss counts only if three re-seeded fair phases from the same prefix all miss and every running replica operates under a membership with a running majority. '
          'E2 progress stage (real NodeHosts, PreVote/CheckQuorum/Quiesce matrix, non-voting and witness members): fault prefix, a no-quorum probe (requests must end, not hang), then a fault-free period in which a leader, completion of proposals / reads through every replica / a membership change / a snapshot request, and catch-up of every reachable replica are required within bounds counted in ticks processed per replica (NodeTick hook) and dragonboat tick-based deadlines; directed prefixes: the leader of witness-dependent shards loses power between send and persist; a quiescent shard loses its leader and is then only asked to make proposals; a replica streams a snapshot and must still save / recover snapshots afterwards; transport send queues give up idle connections after 300-900 ms. '
          'compcheck/msgqueue: the real server.MessageQueue against a reference model (accepted = delivered exactly once, delayed SnapshotStatus neither early nor lost), sequential and concurrent under the race detector.'),
-   note=E1_NOTE + '; bounded progress, not liveness; wall clocks are watchdogs only (firing = inconclusive); rate limiting is not driven. ' + E2_NOTE),
+   note=E1_NOTE + '; bounded progress, not liveness; wall clocks are watchdogs only (firing = inconclusive); rate limiting is driven in the E2 progress stage only (a third of its cases). ' + E2_NOTE),
  'C18': dict(engine='raftsim+clusterrun', category='exploration', design='DESIGN.md section 4 C18',
    technique='runtime monitoring: role/kind monitors at every simulator step, inspection of every message addressed to a witness, quorum-set accounting at commit advances, elections and read confirmations',
    text=('At every step: a replica in candidate/leader role is a regular voter in its own view; campaigns only by voters; after applying its own removal a replica is not leader; every Replicate to a witness carries only metadata/config-change entries and every snapshot to a witness is a witness snapshot; '
